@@ -127,12 +127,14 @@ def token_oracle(ctx, stream, inp, res, ops):
             return
 
 
-def run_one(ctx, stream, rng, names, with_life):
+def run_one(ctx, stream, rng, names, with_life, first="auth_good"):
+    """`first`: the authenticate the history starts with (it tells the object that the unit is V3) - by default a
+    successful one, but it may also be answered with silence / an error / a bad reply or be cancelled"""
     token, key = rb(rng, 64), rb(rng, 32)
     bad_token, bad_key = rb(rng, 64), rb(rng, 32)
     frame = get_frame()
     table = steps(token, key, frame, bad_token, bad_key)
-    ops = [("auth", token, key, "ok", "ok")]
+    ops = [table[first]]
     connects = ["o"]
     if with_life:
         ops.insert(0, ("life", 60000))
@@ -210,6 +212,12 @@ def run(ctx):
         for pre in ([], ["send"], ["send", "send"]):
             run_one(ctx, "reauth_fault", rng, pre + [f, "send"], with_life=False)
             run_one(ctx, "reauth_fault", rng, pre + [f, f, "send", "send"], with_life=False)
+    # the very FIRST handshake of the object fails (unanswered for all retries, error packet, reply under another key,
+    # cancelled): nothing but handshake requests may ever reach the unit until a handshake succeeds
+    for f in ["auth_silent", "auth_reply_bad", "auth_bad", "auth_cancel"]:
+        for post in (["send"], ["send", "send"], ["send_silent", "send"], ["auth_good", "send"], ["send", "auth_good", "send"],
+                     ["clock_13h", "send"], ["auth_silent", "send", "auth_good", "send"]):
+            run_one(ctx, "first_handshake_fails", rng, post, with_life=False, first=f)
     cancels = ["send_cancel_1", "send_cancel_2", "send_cancel_hs", "auth_cancel"]
     for c in cancels:
         for pre in ([], ["send"], ["send_close"], ["clock_13h"], ["auth_bad"]):
